@@ -34,7 +34,12 @@ int LLVMFuzzerTestOneInput(const uint8_t *data, size_t size)
   }
   if (ftruncate(mfd, 0) == -1 || pwrite(mfd, data + off, size - off, 0) != (ssize_t) (size - off)) { perror("memfd write"); exit(3); }
   for (i = 0; i < nk; i++) {
-    uint32 dlen = 0; int r = cdb_seek(mfd, (char *) keys[i], klen[i], &dlen);
+    /* the key lives in an allocation of exactly its own size: reading past the key is reading past a buffer */
+    uint32 dlen = 0; int r; char *k = malloc(klen[i] ? klen[i] : 1);
+    if (!k) abort();
+    memcpy(k, keys[i], klen[i]);
+    r = cdb_seek(mfd, k, klen[i], &dlen);
+    free(k);
     seeks++;
     if (r == 1) {
       unsigned n = dlen > sizeof val ? (unsigned) sizeof val : dlen;
